@@ -335,11 +335,12 @@ func c10JudgeObject(c *fw.Ctx, ms []jmem, lay c10Layout, tags []string, allLimit
 }
 
 func c10JudgeOne(c *fw.Ctx, kind string, d []byte, L uint32, wantT, wantE string) {
-	key := fw.InputKey(d, L, "Detect")
-	c.Trace(func() (string, any) { return key, fw.MkInCase(kind, d, L, "Detect", wantT+"|"+wantE) })
+	entry := pickEntry(c)
+	key := fw.InputKey(d, L, entry)
+	c.Trace(func() (string, any) { return key, fw.MkInCase(kind, d, L, entry, wantT+"|"+wantE) })
 	var ch lib.Chain
-	ok := c.Guard(key, func() any { return fw.MkInCase(kind, d, L, "Detect", "panic") }, func() {
-		m := lib.Detect(d, L)
+	ok := c.Guard(key, func() any { return fw.MkInCase(kind, d, L, entry, "panic") }, func() {
+		m := detectEntry(d, L, entry)
 		anomalyC02(c, m, nil)
 		ch = lib.ChainOf(m)
 	})
@@ -352,7 +353,7 @@ func c10JudgeOne(c *fw.Ctx, kind string, d []byte, L uint32, wantT, wantE string
 	if lf.T != wantT || lf.Ext != wantE {
 		c.Violate("wrong-json-subtype", key,
 			fmt.Sprintf("expected %s|%s from the top-level members, got %s; document %s limit %d", wantT, wantE, ch, fw.Quote(d, 160), L),
-			fw.InCase{Kind: kind, In: d, Limit: L, Entry: "Detect", Aux: wantT + "|" + wantE, InQ: fw.Quote(d, 160)})
+			fw.InCase{Kind: kind, In: d, Limit: L, Entry: entry, Aux: wantT + "|" + wantE, InQ: fw.Quote(d, 160)})
 	}
 }
 
@@ -485,6 +486,9 @@ func init() {
 			if err != nil {
 				fmt.Println("bad payload:", err)
 				return
+			}
+			if ic.Entry != "" && ic.Entry != "charset.FromPlain" {
+				forcedEntry = ic.Entry
 			}
 			p := strings.SplitN(ic.Aux, "|", 2)
 			if len(p) != 2 {
